@@ -23,10 +23,12 @@ RULE = ("documents: jsongen valid texts, byte-mutated texts, texts padded to 409
         "8 flag sets incl. serializations beyond 4096/8192 bytes; schedules: all-1-byte, whole request, 4096-multiples, oversize, "
         "random mixes, boundary mixes, a failing call at every call position (incl. the end-of-file call) for short texts x errno "
         "{EIO, EINTR, one of EAGAIN/EBADF/ENOSPC/EPIPE/EDQUOT/EFBIG/ENOMEM/untouched} and at random positions otherwise; open() failing with ENOENT/EACCES/EINTR/EMFILE/EISDIR; "
-        "non-trivial = at least two data-carrying calls or an injected error reached; distinct by script line")
+        "file-system histories (1-5 steps of to_file_ext / to_file / from_file over paths a,b,c): fresh path, existing longer (+1,+2,+17,+300) / "
+        "equal / shorter file, second write shrinking and growing, read back, absent path, other files untouched; "
+        "non-trivial = at least two data-carrying calls or an injected error reached or a successful file write; distinct by script line")
 TRUSTED = ["Coq 8.16.1 kernel (coqc), no axioms (Print Assumptions: closed under the global context)",
            "extraction (ExtrOcamlBasic only) + ocaml/drv_fd.ml glue (pads the schedule with whole-request entries)",
-           "harness/drv_fd.c (scripted read/write/open/close stubs, recording wrapper around json_tokener_parse_ex), jvtext.h, xalloc.c; gcc -fsanitize=address,undefined",
+           "harness/drv_fd.c (scripted read/write/open/close stubs, an in-memory file system whose open() honours O_CREAT/O_EXCL/O_TRUNC/O_APPEND/access mode, recording wrapper around json_tokener_parse_ex), jvtext.h, xalloc.c; gcc -fsanitize=address,undefined",
            "serializer (C02) and tokener (C01) are arguments of the model, not part of it"]
 ASSUMPTIONS = ["read()/write() behave as a transfer schedule: each call moves min(n, requested, left) bytes or fails; n >= 1 (a write() that accepts 0 bytes makes the C loop spin: theorem C20_write_zero_spins)",
                "allocation does not fail (C08's subject); printbuf_memappend is list append (C19)",
@@ -315,6 +317,85 @@ def gen(rng, tier):
             for (sc, sk) in rng.sample(thin(rng, schedules(rng, L, 1, errnos=ERRNOS_W), L, none), 3):
                 which = "w" if fl == 0 and rng.random() < 0.5 else "W"
                 out.append(("fd F %s %s %s %d %s %s" % (which, ok, t, fl, sc, ser), {"kind": "FW-" + ("open" if ok == "1" else "noopen") + "/" + sk}))
+    out += gen_histories(rng, tier, [(t, fl, sers[(t, fl)]) for (t, fl, _) in trees if (t, fl) in sers])
+    return out
+
+
+def junk(rng, n):
+    """n bytes of previous file contents: an old JSON text, or arbitrary bytes"""
+    if n <= 0:
+        return b""
+    if n >= 12 and rng.random() < 0.6:
+        return b'{"old":"' + b"x" * (n - 10) + b'"}'
+    return bytes(rng.choice(b"0123456789abcdef{}[],: \n") for _ in range(n))
+
+
+def gen_histories(rng, tier, pool):
+    """histories on the in-memory file system: what json_object_to_file(_ext)/json_object_from_file
+    do with the FILE — a fresh path, an existing longer / equally long / shorter file, a second
+    write to the same path (shrinking and growing), reading back, reading an absent path,
+    other files left alone"""
+    out = []
+    small = sorted([x for x in pool if x[0] != "n" and len(x[2]) <= 2 * 400], key=lambda x: (len(x[2]), x[0], x[1]))
+    if not small:
+        return out
+    plain = [x for x in small if x[1] == 0]
+
+    def wstep(path, item, sc="-", legacy=False):
+        t, fl, ser = item
+        return "%s/%s/%s/%d/%s/%s" % ("v" if legacy and fl == 0 else "w", path, t, fl, sc, ser)
+
+    def add(init, steps, kind):
+        ini = ",".join("%s=%s" % (k, hx(v)) for k, v in init) if init else "-"
+        out.append(("fd P %s %s" % (ini, ";".join(steps)), {"kind": "P-" + kind}))
+
+    lo, hi = small[0], small[-1]
+    mid = small[len(small) // 2]
+    # deterministic shapes, with the shortest / a middle / the longest serialization at hand
+    for it in (lo, mid, hi):
+        L = len(unhx(it[2]))
+        add([], [wstep("a", it)], "fresh")
+        add([], [wstep("a", it, legacy=True), "r/a/-"], "fresh")
+        for d in (1, 2, 17, 300):
+            add([("a", junk(rng, L + d))], [wstep("a", it), "r/a/-"], "over-longer")
+            add([("a", junk(rng, L + d))], [wstep("a", it, sched_str([1] * L), legacy=True)], "over-longer")
+        add([("a", junk(rng, L))], [wstep("a", it)], "over-equal")
+        for d in (1, 2, L):
+            add([("a", junk(rng, max(0, L - d)))], [wstep("a", it), "r/a/1*%d" % (L + 1)], "over-shorter")
+        add([("a", junk(rng, L + 9)), ("b", junk(rng, 7))], [wstep("a", it), "r/b/-", "r/c/-"], "others-untouched")
+        add([("a", junk(rng, L + 9))], [wstep("a", it, sched_str([1, "E:ENOSPC"]))], "over-longer-error")
+    add([], [wstep("a", hi), wstep("a", lo), "r/a/-"], "second-write-shrinks")
+    add([], [wstep("a", lo), wstep("a", hi), "r/a/-"], "second-write-grows")
+    add([], [wstep("a", hi), wstep("b", mid), wstep("a", lo, legacy=True), "r/a/-", "r/b/-"], "second-write-shrinks")
+    add([], [wstep("a", hi), wstep("a", ("n", 0, "6e756c6c")), "r/a/-"], "null-object-keeps-file")
+    add([], ["r/a/-"], "read-absent")
+    add([("a", b"[1, 2, 3]\n")], ["r/a/1*11", "r/a/4,E:EINTR", "r/a/-"], "read-existing")
+    # random histories
+    n = 150 if tier == "quick" else 3000
+    for _ in range(n):
+        init = []
+        for path in "ab":
+            if rng.random() < 0.6:
+                ref = len(unhx(rng.choice(small)[2]))
+                init.append((path, junk(rng, max(0, ref + rng.choice([-ref, -3, -1, 0, 1, 2, 5, 40, 200])))))
+        steps = []
+        for _ in range(rng.randint(1, 4)):
+            path = rng.choice("aab")
+            if rng.random() < 0.7:
+                it = rng.choice(plain if plain and rng.random() < 0.3 else small)
+                L = len(unhx(it[2]))
+                r = rng.random()
+                if r < 0.5:
+                    sc = "-"
+                elif r < 0.85:
+                    sc = sched_str(rand_sizes(rng, L, False))
+                else:
+                    pre = rand_sizes(rng, L, False)
+                    sc = sched_str(pre[:rng.randint(0, len(pre))] + [err_item(rng.choice(ERRNOS_W))])
+                steps.append(wstep(path, it, sc, legacy=rng.random() < 0.5))
+            else:
+                steps.append("r/%s/%s" % (path, rng.choice(["-", "1*40", "3,5,1000", "2,E:EINTR", "7*3,E"])))
+        add(init, steps, "random")
     return out
 
 
@@ -399,6 +480,97 @@ def o_read(doc, depth_s, sched, o, file, open_ok):
     return None
 
 
+def o_history(t, impl):
+    """file-system histories: the tracked contents of every path are what the driver showed after
+    the previous step; each step is judged from the property text against them"""
+    fs = {}
+    if t[2] != "-":
+        for it in t[2].split(","):
+            fs[it[0]] = unhx(it[2:])
+    steps = t[3].split(";")
+    obs = impl.split(" | ")
+    if len(obs) != len(steps) + 1:
+        return ("malformed", "unexpected driver output: " + impl[:120])
+    for k, (st, ob) in enumerate(zip(steps, obs), start=1):
+        f, o = st.split("/"), ob.split(" ")
+        path = f[1]
+        before = fs.get(path)
+        if f[0] in "wv":
+            if len(o) != 8 or o[0] != "w":
+                return ("malformed", "step %d: %s" % (k, ob[:100]))
+            tree, sched, ser = f[2], sched_parse(f[4]), unhx(f[5])
+            rc, msg, opens, closes = int(o[1]), o[2], int(o[4]), int(o[5])
+            after = None if o[7] == "ABSENT" else unhx(o[7])
+            if rc == -1 and msg != "1":
+                return ("failure-without-message", "step %d: write returned -1 but json_util_get_last_err() is NULL" % k)
+            if tree == "n":
+                if rc != -1 or after != before or opens != 0:
+                    return ("null-object", "step %d: NULL object: rc=%d, %d open(), file %s" % (k, rc, opens, "changed" if after != before else "unchanged"))
+            else:
+                w = walk_write(len(ser), sched)
+                if w[0] == "done":
+                    if rc != 0:
+                        return ("write-spurious-failure", "step %d: no write failed, yet rc=%d" % (k, rc))
+                    if after != ser:
+                        if after is None:
+                            how = "the file does not exist"
+                        elif after.startswith(ser) and before is not None and after[len(ser):] == before[len(ser):]:
+                            how = "the serialization is followed by %d stale bytes of the %d-byte file that was there before" % (len(after) - len(ser), len(before))
+                        elif before is not None and after.startswith(before):
+                            how = "the previous %d bytes are still in front" % len(before)
+                        else:
+                            how = "different contents"
+                        return ("file-not-exact", "step %d: rc=0 but the file holds %d bytes, the serialization has %d: %s"
+                                % (k, len(after or b""), len(ser), how))
+                elif w[0] == "err":
+                    if rc != -1:
+                        return ("write-error-unreported", "step %d: write() failed (%s) after %d bytes but rc=%d" % (k, w[2], w[1], rc))
+                if closes != opens:
+                    return ("fd-leak", "step %d: %d open(), %d close()" % (k, opens, closes))
+            if after is None:
+                fs.pop(path, None)
+            else:
+                fs[path] = after
+        else:
+            if len(o) != 13 or o[0] != "r":
+                return ("malformed", "step %d: %s" % (k, ob[:100]))
+            result, msg, ref, opens, closes = o[1], o[2], o[7], int(o[9]), int(o[10])
+            after = None if o[12] == "ABSENT" else unhx(o[12])
+            if after != before:
+                return ("read-modified-file", "step %d: reading %s changed it (%s -> %s bytes)"
+                        % (k, path, "absent" if before is None else len(before), "absent" if after is None else len(after)))
+            if result == "NULL" and msg != "1":
+                return ("failure-without-message", "step %d: NULL returned but json_util_get_last_err() is NULL" % k)
+            if before is None:
+                if result != "NULL" or closes != 0:
+                    return ("open-failure-unreported", "step %d: absent file: result %s, %d close()" % (k, result[:40], closes))
+            else:
+                w = walk_read(len(before), sched_parse(f[2]))
+                if w[0] == "err":
+                    resumed = w[2] == "E:EINTR" and unhx(o[6]) == before and o[4] == "1" and result == ref
+                    if result != "NULL" and not resumed:
+                        return ("read-error-unreported", "step %d: read() failed (%s) after %d of %d bytes but a tree was returned: %s"
+                                % (k, w[2], w[1], len(before), result[:60]))
+                elif w[0] == "done" and result != ref:
+                    return ("read-differs-from-memory", "step %d: reading the file gives %s, parsing its %d bytes from memory gives %s"
+                            % (k, result[:80], len(before), ref[:80]))
+                if closes != 1:
+                    return ("fd-leak", "step %d: file opened, close() called %d times" % (k, closes))
+    e = obs[-1].split(" ")
+    if len(e) != 3 or e[0] != "end":
+        return ("malformed", "end: " + obs[-1][:100])
+    if int(e[1]) != 0:
+        return ("leak", "%s allocation(s) still live after the history" % e[1])
+    final = {}
+    if e[2] != "-":
+        for it in e[2].split(","):
+            final[it[0]] = unhx(it[2:])
+    if final != fs:
+        bad = sorted(k for k in set(final) | set(fs) if final.get(k) != fs.get(k))
+        return ("other-file-changed", "file(s) %s differ from what the steps left" % ",".join(bad))
+    return None
+
+
 def oracle(line, meta, impl):
     if "CRASH" in impl:
         return ("crash", "implementation crashed: " + impl[:100])
@@ -417,6 +589,8 @@ def oracle(line, meta, impl):
             return o_read(unhx(t[4]), "-1", sched_parse(t[5]), o, True, t[3] == "1")
         if t[1] == "F":
             return o_write(t[4], sched_parse(t[6]), o, True, t[3] == "1")
+        if t[1] == "P":
+            return o_history(t, impl)
         if t[1] == "S":
             return None
     except (ValueError, IndexError) as e:
@@ -435,6 +609,9 @@ def nontrivial(line, meta, impl):
         if o[0] in ("W", "FW"):
             if (o[1] == "0" and int(o[3]) >= 2) or (o[1] == "-1" and int(o[3]) >= 1):
                 return line
+        if o[0] in ("w", "r") and " | " in impl:
+            if any(x.startswith("w 0 ") for x in impl.split(" | ")) or impl.count(" | ") >= 2:
+                return line
         if o[0] in ("R", "FR"):
             if int(o[3]) >= 3 or (o[1] == "NULL" and o[4] == "0" and int(o[3]) >= 1):
                 return line
@@ -451,6 +628,11 @@ def shrink(ck, line, cls):
         m, c, _ = ck.run_pair([l], "shrink")
         v = oracle(l, {}, c.get(1, "MISSING"))
         return v is not None and v[0] == cls
+    if t[1] == "P":
+        steps = t[3].split(";")
+        if len(steps) >= 2:
+            steps = fw.ddmin(steps, lambda sub: fails(" ".join(t[:3] + [";".join(sub)])), budget=12)
+        return " ".join(t[:3] + [";".join(steps)])
     si = {"W": 4, "R": 4}.get(t[1], 5 if t[2] == "R" else 6)
     items = sched_parse(t[si])
     if len(items) >= 2:
@@ -477,7 +659,11 @@ LEVEL_TEXT = ("Machine-checked (Coq, induction on transfer schedules, no axioms,
               "returned only with the exact string delivered; a 0-byte write spins (stated). For every data, parser and schedule of read sizes "
               ">= 1 json_object_from_fd_ex hands the parser exactly the data, in one call, with the configured depth (32 for -1) and returns that "
               "call's result; any two error-free schedules agree; a read error, an unopenable file, an uncreatable tokener and a NULL parse give NULL "
-              "with a message; no path leaves the buffer or the tokener allocated; files are closed exactly once. The model is tied to json_util.c "
+              "with a message; no path leaves the buffer or the tokener allocated; files are closed exactly once. On a file system path -> contents with "
+              "open() flags as data (O_WRONLY|O_TRUNC|O_CREAT, O_RDONLY): for every initial file system a successful json_object_to_file_ext leaves exactly "
+              "the serialization in the file and every other file untouched, a failed one leaves the delivered prefix, a refused open changes nothing; "
+              "without O_TRUNC a longer file keeps its stale tail (stated); reading never changes the file system; write-then-read is the one "
+              "in-memory parse of the serialization. The model is tied to json_util.c "
               "on every run by differential execution against the sanitizer build with interposed read/write/open/close.")
 LEVEL_NOTE = ("Trusted: Coq kernel; extraction + OCaml glue; the scripted stubs; the theorems are about the Gallina model, tied to the C code only by "
               "the sampled correspondence. The serializer, the tokener and the print buffer are arguments/oracles of this model (C02, C01, C19). "
